@@ -96,7 +96,11 @@ MIN_COUNTERS = {
               "idf_started_at_equilibrium_single_scc": 170, "idf_started_at_equilibrium_multi_scc": 35,
               "idf_started_at_equilibrium_from_consistent_targets": 90,
               "idf_started_at_equilibrium_from_inconsistent_targets": 220,
-              "idf_start_point_oracle_evaluations": 1000, "idf_parallel_cases": 110},
+              "idf_start_point_oracle_evaluations": 1000, "idf_parallel_cases": 110,
+              "mdf_non_chained_mda_with_weak_couplings": 130, "mdf_non_chained_mda_with_weak_couplings_MDAJacobi": 90,
+              "mdf_non_chained_mda_with_weak_couplings_MDAGaussSeidel": 40,
+              "mdf_non_chained_mda_with_weak_couplings_feed_forward": 80,
+              "mdf_non_chained_mda_with_weak_couplings_multi_scc": 50},
     "thorough": {"value_oracle_evaluations": 139000, "value_MDF": 41000, "value_IDF": 82000,
                  "value_DisciplinaryOpt": 14500, "derivative_oracle_evaluations": 139000, "derivative_MDF": 41000,
                  "derivative_IDF": 82000, "derivative_DisciplinaryOpt": 14500, "consistency_oracle_evaluations": 38000,
@@ -109,7 +113,11 @@ MIN_COUNTERS = {
                  "idf_started_at_equilibrium_single_scc": 2400, "idf_started_at_equilibrium_multi_scc": 600,
                  "idf_started_at_equilibrium_from_consistent_targets": 1350,
                  "idf_started_at_equilibrium_from_inconsistent_targets": 3100,
-                 "idf_start_point_oracle_evaluations": 14000, "idf_parallel_cases": 1650},
+                 "idf_start_point_oracle_evaluations": 14000, "idf_parallel_cases": 1650,
+                 "mdf_non_chained_mda_with_weak_couplings": 1800, "mdf_non_chained_mda_with_weak_couplings_MDAJacobi": 1200,
+                 "mdf_non_chained_mda_with_weak_couplings_MDAGaussSeidel": 550,
+                 "mdf_non_chained_mda_with_weak_couplings_feed_forward": 1100,
+                 "mdf_non_chained_mda_with_weak_couplings_multi_scc": 700},
 }
 SHARD_TIMEOUT = {"quick": 400, "thorough": 2400}
 
